@@ -1724,6 +1724,22 @@ impl RdfExpressionPredicate {
                 let col_idx = *self.variable_columns.get(variable)?;
                 chunk.column(col_idx)?.get_value(row)
             }
+            FilterExpression::Binary { left, op, right }
+                if matches!(op, BinaryFilterOp::And | BinaryFilterOp::Or) =>
+            {
+                // SPARQL 17.2 three-valued logic: an error in one operand does not decide the
+                // result when the other operand does (true || error = true, false && error = false)
+                let l = self.eval_expr(left, chunk, row).and_then(|v| v.as_bool());
+                let r = self.eval_expr(right, chunk, row).and_then(|v| v.as_bool());
+                let decisive = matches!(op, BinaryFilterOp::Or);
+                if l == Some(decisive) || r == Some(decisive) {
+                    Some(Value::Bool(decisive))
+                } else if l.is_some() && r.is_some() {
+                    Some(Value::Bool(!decisive))
+                } else {
+                    None
+                }
+            }
             FilterExpression::Binary { left, op, right } => {
                 let left_val = self.eval_expr(left, chunk, row)?;
                 let right_val = self.eval_expr(right, chunk, row)?;
